@@ -54,3 +54,53 @@ def sdf_stubs(c, perp=None):
     finally:
         for k, v in saved.items():
             setattr(V, k, v)
+
+
+class _SignalStub:
+    """scipy.signal with `convolve` extended to symbolic 1-d inputs (documented 'full' convolution, 'same' = its central part)."""
+
+    def __init__(self, real):
+        self._real = real
+
+    def __getattr__(self, name):
+        return getattr(self._real, name)
+
+    def convolve(self, in1, in2, mode="full", method="auto"):
+        from .symnp import SArr, has_sym
+        import numpy as _np
+
+        if not (isinstance(in1, SArr) or isinstance(in2, SArr) or has_sym(in1) or has_sym(in2)):
+            return self._real.convolve(in1, in2, mode=mode, method=method)
+        a = list(_np.asarray(in1, dtype=object).reshape(-1))
+        k = list(_np.asarray(in2, dtype=object).reshape(-1))
+        n, m = len(a), len(k)
+        full = []
+        for t in range(n + m - 1):
+            s = 0
+            for j in range(n):
+                if 0 <= t - j < m:
+                    s = s + a[j] * k[t - j]
+            full.append(s)
+        if mode == "full":
+            out = full
+        elif mode == "same":
+            start = (m - 1) // 2
+            out = full[start:start + n]
+        else:
+            raise E.OutsideClaim("signal.convolve mode " + mode)
+        return SArr(out, _np.float64)
+
+
+@contextmanager
+def convolve_stub(c):
+    import swcgeom.transforms.branch as B
+
+    if c.mode != "sym":
+        yield
+        return
+    saved = B.signal
+    B.signal = _SignalStub(saved)
+    try:
+        yield
+    finally:
+        B.signal = saved
